@@ -421,7 +421,7 @@ def evidence(tier, seed, total):
     return {
         'level': LEVEL,
         'coverage': {
-            'rule': '[additions: both stacks issue requests; identity-churn histories (I-Ams from other stations incl. spoofed earlier owners of an address, devices that move, addresses taken over); stale-owner histories (the requester's address was announced by a since-replaced device with other capabilities and the requester stays silent: the request header alone bounds the answer); late I-Am with a lost first transmission; re-announcement with smaller limits before a retry; transfers segmented in both directions with late / lost server segment-acks and first response segments; the window actually used is monitored (C12.e)] Each run draws independent capabilities for requester and responder (six standard max-APDU sizes x four segmentation values x '
+            'rule': '[additions: both stacks issue requests; identity-churn histories (I-Ams from other stations incl. spoofed earlier owners of an address, devices that move, addresses taken over); stale-owner histories (the address of the requester was announced by a since-replaced device with other capabilities and the requester stays silent: the request header alone bounds the answer); late I-Am with a lost first transmission; re-announcement with smaller limits before a retry; transfers segmented in both directions with late / lost server segment-acks and first response segments; the window actually used is monitored (C12.e)] Each run draws independent capabilities for requester and responder (six standard max-APDU sizes x four segmentation values x '
                     'max-segments {2..64,>64} x window 1..127), lets both announce I-Am (85% of runs) and issues 1-4 echo transactions whose request / '
                     'response service-data lengths sit on every boundary the two capability sets create (k*(limit-header) +-1, max-segments*(limit-header) +-1). '
                     '20% of runs add drops/delays so the same invariants are checked during retransmission. A run is non-trivial when at least one request '
